@@ -461,3 +461,56 @@ def rule_z_carry(db, chk, cfg, rule="Z.carry"):
                               "`%s` builds a vertex from the x and y of `%s` without a z argument: in the USINGZ build the new vertex gets z = 0 instead of "
                               "the z of the vertex it was made from" % (canon(c)[:80], sorted(same)[0]), where(c), cfg=cfg)
     return n
+
+
+class _WholeThenPart(Client):
+    """state: 'clean' / 'whole' - the out-parameter has been assigned as a whole (x, y *and z* copied from another point) on this path."""
+
+    def __init__(self, db, pid):
+        self.db, self.pid = db, pid
+        self.bad = []
+
+    def join(self, a, b):
+        return "whole" if "whole" in (a, b) else "clean"
+
+    def stmt(self, node, st):
+        for x in walk(node):
+            if x.get("kind") == "CXXOperatorCallExpr" and self.db.callee(x)[0] == "operator=" and len(kids(x)) == 3:
+                l = _u(kids(x)[1])
+                if l.get("kind") == "DeclRefExpr" and l.get("referencedDecl", {}).get("id") == self.pid:
+                    st = "whole"
+            if x.get("kind") == "BinaryOperator" and x.get("opcode") == "=":
+                l = _u(kids(x)[0])
+                if l.get("kind") == "MemberExpr" and l.get("name") in ("x", "y") and kids(l):
+                    b = _u(kids(l)[0])
+                    if b.get("kind") == "DeclRefExpr" and b.get("referencedDecl", {}).get("id") == self.pid and st == "whole":
+                        self.bad.append(x)
+        return st
+
+
+def rule_no_whole_then_part(db, chk, cfg, rule="Z.out-point-fresh"):
+    """[USINGZ] Inside a function that gives its out-parameter new x and y member-wise, no path assigns the parameter as a whole first
+    (`ip = ln1a; ... ip.x = ..; ip.y = ..;`): the member-wise result would carry the z of the point copied before.  Whole assignment
+    and member-wise assignment live on different paths."""
+    n = 0
+    for f in db.funcs:
+        if f.is_pattern or f.body is None or not f.file or not ("/clipper2/" in f.file or "/Clipper2Lib/src/" in f.file):
+            continue
+        for i, p in enumerate(f.params):
+            t = qt(p) or ""
+            if not ("&" in t and not t.startswith("const") and "Point<" in (dqt(p) or t).replace("Point64", "Point<").replace("PointD", "Point<")):
+                continue
+            if not any(x.get("kind") == "BinaryOperator" and x.get("opcode") == "=" and _u(kids(x)[0]).get("kind") == "MemberExpr"
+                       and _u(kids(x)[0]).get("name") in ("x", "y") and kids(_u(kids(x)[0])) and
+                       _u(kids(_u(kids(x)[0]))[0]).get("referencedDecl", {}).get("id") == p.get("id") for x in walk(f.body)):
+                continue
+            cl = _WholeThenPart(db, p.get("id"))
+            Walker(cl).function(f.body, "clean")
+            n += 1
+            ok = not cl.bad
+            chk.instance(rule, {"function": f.qual, "sig": f.sig[:50], "out_parameter": p.get("name"), "obligation": "no whole assignment precedes the member-wise x / y on any path", "cfg": cfg}, ok=ok)
+            if not ok:
+                chk.violation(rule, f.qual, "%s|whole-then-part|%s" % (f.sig[:30], p.get("name")),
+                              "%s [%s]: `%s` is assigned as a whole and then given new x / y member-wise on the same path (%s): the resulting vertex keeps the z of the "
+                              "point copied first instead of the default" % (f.qual, f.sig[:46], p.get("name"), where(cl.bad[0])), where(cl.bad[0]), cfg=cfg)
+    return n
